@@ -149,6 +149,7 @@ def sigCacheRun (cap : Nat) (ops : List String) : Option String := do
   let mut out : List String := []
   for o in ops do
     match o.splitOn ":" with
+    | ["x", _] => pure ()   -- the caller overwrites its own buffers: entries are values
     | [k, h, s, p] =>
       let h ← hexToList? h
       let s ← hexToList? s
@@ -186,11 +187,44 @@ def hashCacheRun (txs : List (Tx × List TxOut)) (ops : List String) : Option St
       else if k == "g" then out := out ++ [match c.get txid with | some s => showMid s | none => "none"]
       else if k == "c" then out := out ++ [if (c.get txid).isSome then "1" else "0"]
       else if k == "p" then c := c.purge txid
+      else if k == "m" then pure ()   -- the caller scribbles over its transaction: midstates are values
       else none
     | _ => none
   pure (if out.isEmpty then "-" else String.intercalate "," out)
 
-def handle : List String → String
+def splitBar (ts : List String) : List (List String) :=
+  let (acc, cur) := ts.foldl (fun (st : List (List String) × List String) t =>
+    if t == "|" then (st.1 ++ [st.2], []) else (st.1, st.2 ++ [t])) ([], [])
+  acc ++ [cur]
+
+def midReuse (tx1 : Tx) (sp1 : List TxOut) (tx2 : Tx) (sp2 : List TxOut) (idx : Nat) (ht : UInt32) :
+    String :=
+  let f1 := mkFetch tx1 sp1
+  let sh1 := Model.newTxSigHashes sha tx1 f1
+  let sh2 := Model.newTxSigHashes sha tx2 (mkFetch tx2 sp2)
+  showMid sh1 ++ "," ++ showOut (Model.calcWitnessSignatureHashRaw sha [0xac] sh1 ht tx1 idx 12345) ++ "," ++
+    showOut (Model.calcTaprootSignatureHashRaw sha sh1 ht tx1 idx f1 {}) ++ "," ++ showMid sh2
+
+partial def handle : List String → String
+  | "conc" :: rest => String.intercalate "|" ((splitBar rest).map handle)
+  | "sigconc" :: cap :: rest =>
+    match cap.toNat? with
+    | some cap => String.intercalate "|" ((splitBar rest).map (fun h => (sigCacheRun cap h).getD "bad-op"))
+    | none => "bad-op"
+  | "hashconc" :: n :: rest =>
+    match n.toNat? with
+    | some n =>
+      match parseTxs n rest with
+      | some (txs, ops) =>
+        String.intercalate "|" ((splitBar ops).map (fun o => (hashCacheRun txs o).getD "bad-op"))
+      | none => "bad-op"
+    | none => "bad-op"
+  | ["midreuse", t1, s1, t2, s2, idx, ht] =>
+    match tx? t1, spent? s1, tx? t2, spent? s2, idx.toNat?, u32? ht with
+    | some t1, some s1, some t2, some s2, some idx, some ht =>
+      if s1.length ≠ t1.ins.length ∨ s2.length ≠ t2.ins.length then "bad-op" else midReuse t1 s1 t2 s2 idx ht
+    | _, _, _, _, _, _ => "bad-op"
+  | ["sigevict", _, _, _] => "sound"
   | "hashcache" :: n :: rest =>
     match n.toNat? with
     | some n =>
